@@ -40,6 +40,8 @@ VARIABLES conf,       \* [useLogger: Logger (both locks) / bare OwnThreadHandler
                       \*         scope counts as available - the release itself is not an observable event,
                       \*  rt: record which calls had returned when a call began (ghost for RealTimeOrder; off in the
                       \*      configurations where it would only multiply states),
+                      \*  fatalEvery: every n-th message of a producer is a fatal one (0 = none): after a fatal message that
+                      \*        was processed synchronously, processMessage flushes the sinks inside its critical section,
                       \*  disc: resetOwnThread disconnects the aboutToQuit connection of the thread object it stops
                       \*        (FALSE = the code before the fix, kept as a witness),
                       \*  safeEnv: the environment keeps asynchronous logging inside the life of the application
@@ -139,11 +141,29 @@ Post(t) ==                       \* QCoreApplication::postEvent(m_worker, new Lo
     /\ Goto(t, "oth.posted")
     /\ UNCHANGED <<lm, hm, tptr, wptr, thr, wobj, pending, app, hooked, hobj, stale, cur, todo, script, inPipe, ctr, rd, delivered>>
 
+IsFatal(m) == conf.fatalEvery > 0 /\ m # NoMsg /\ m[2] % conf.fatalEvery = 0
+\* if (type == QtFatalMsg) { if (!ownThreadIsRunning()) flush(); }
+NeedsFlush(t) == conf.useLogger /\ IsFatal(cur[t]) /\ ~(tptr /\ thr \in {"running", "quitting"})
+
 UnlockH(t) ==
     /\ pc[t] \in {"oth.posted", "oth.sync.end"}
     /\ hm' = IF hm = t THEN NoOne ELSE hm
-    /\ Goto(t, "pm.done")
+    /\ Goto(t, IF NeedsFlush(t) THEN "pm.flush" ELSE "pm.done")
     /\ UNCHANGED <<lm, tptr, wptr, thr, wobj, queue, pending, app, hooked, hobj, stale, cur, todo, script, inPipe, ctr, rd,
+                   delivered, accepted, ghost>>
+
+FlushBegin(t) ==                 \* the flush walk enters the sinks: the thread is inside the pipeline again
+    /\ pc[t] = "pm.flush"
+    /\ inPipe' = inPipe \cup {t}
+    /\ Goto(t, "pm.flushing")
+    /\ UNCHANGED <<lm, hm, tptr, wptr, thr, wobj, queue, pending, app, hooked, hobj, stale, cur, todo, script, ctr, rd,
+                   delivered, accepted, ghost>>
+
+FlushEnd(t) ==
+    /\ pc[t] = "pm.flushing"
+    /\ inPipe' = inPipe \ {t}
+    /\ Goto(t, "pm.done")
+    /\ UNCHANGED <<lm, hm, tptr, wptr, thr, wobj, queue, pending, app, hooked, hobj, stale, cur, todo, script, ctr, rd,
                    delivered, accepted, ghost>>
 
 UnlockL(t) ==                    \* the logger mutex is released when processMessage returns
@@ -424,7 +444,7 @@ AppDestroy(s) ==
 ---------------------------------------------------------------------------
 Init ==
     /\ conf \in [useLogger : BOOLEAN, recheck : BOOLEAN, safeEnv : BOOLEAN, locks : BOOLEAN, eager : BOOLEAN, rt : BOOLEAN,
-               disc : BOOLEAN]
+               disc : BOOLEAN, fatalEvery : 0..9]
     /\ lm = [owner |-> NoOne, depth |-> 0] /\ hm = NoOne
     /\ tptr = FALSE /\ wptr = FALSE /\ thr = "none" /\ wobj = "none"
     /\ queue = <<>> /\ pending = 0 /\ app = "none" /\ hooked = FALSE /\ hobj = "alive" /\ stale = 0
@@ -435,7 +455,7 @@ Init ==
     /\ ghost = [crashed |-> FALSE, cleared |-> {}, stops |-> 0, returned |-> {}, pre |-> <<>>]
 
 ProducerStep(t) ==
-    CallBegin(t) \/ LockL(t) \/ LockH(t) \/ Branch(t) \/ Post(t) \/ UnlockH(t) \/ UnlockL(t) \/ CallEnd(t)
+    CallBegin(t) \/ LockL(t) \/ LockH(t) \/ Branch(t) \/ Post(t) \/ UnlockH(t) \/ FlushBegin(t) \/ FlushEnd(t) \/ UnlockL(t) \/ CallEnd(t)
     \/ PipeEnter(t) \/ PipeRead(t) \/ PipeWrite(t) \/ PipeDeliver(t) \/ PipeExit(t)
 
 WorkerStep ==
